@@ -14,6 +14,23 @@ CHECKS = {
  "C08": ("model_checking", "2.3, 5/C08", "stateless model checking (DPOR + sleep sets): every completion order of parallel tasks is a schedule; a recorder process observes the out-port; sequence must equal the reference arrival order (per upstream through fan-in)",
          "bounds: <= 3 items (4 in thorough), chains and fan-in."),
 }
+
+CHECKS.update({
+ "C01": ("fault_enumeration", "2.3, 5/C01", "exhaustive crash-point and fault enumeration on the implementation: the disk after EVERY file-system mutation of every explored schedule (DPOR + sleep sets, FS mutations globally dependent with one task in flight; delay-bounded with two) x 5 failure kinds per task at the exec seam; state predicate on every such disk: a declared output that exists is complete and its task ended successfully, unfinished work is confined to _scipipe_tmp*",
+         "kill = process-group kill (completed syscalls persist); the .audit.json side-car is not an output file; bounds: graphs G2/G3/G4/G7/G8/G14a, <= 2 items."),
+ "C02": ("fault_enumeration", "5/C02", "exhaustive history enumeration x schedule exploration: every non-empty subset of tasks with pre-existing outputs (reference / user bytes, with / without audit file) under every Mazurkiewicz trace; online monitor in the FS seam for mutating calls on protected files + (inode, mtime, size, bytes) comparison; complete-run-then-rerun history",
+         "bounds: graphs G2/G3/G6b/G7/G8, <= 2 items; multi-output tasks all-or-none."),
+ "C03": ("fault_enumeration", "2.3, 5/C03", "exhaustive crash-state enumeration with seeded recovery: every DISTINCT disk digest after every FS mutation of every explored schedule is copied and recovered from (R1 as is, R2 after cleanup), recovery runs explored over all schedules and themselves crashed once more (depth 2)",
+         "recovery is a function of the disk state; kill = process kill; bounds as in C01."),
+ "C09": ("fault_enumeration", "5/C09", "every choice of failing task x failure kind (genuine *exec.ExitError values at the exec seam; killed; missing output; unformable task) under every Mazurkiewicz trace of the concurrently running rest: exit != 0, no completion marker, failed outputs never final, no dependent task starts",
+         "bounds: graphs G3/G4/G7/G8, <= 2 items (more in thorough)."),
+ "C14": ("exploration", "5/C14", "small-scope exhaustive enumeration: all task identities over a small alphabet built with NewTask; all pairs compared by grouping on TempDir(); length boundary 180..262; every map-iteration order",
+         "exhaustive inside the alphabet only; no sampling of long random values (outside the technique)."),
+ "C16": ("model_checking", "5/C16", "every single edge left unconnected (refused before any start event, every schedule); dangling out-ports drained; EVERY non-empty subset of processes as RunTo targets by name / regex / value: started processes = reference upstream closure over file and parameter edges, exactly once, C05 return predicate; schedules by DPOR + sleep sets",
+         "bounds: graphs G3-G8/G11 with 1-2 items."),
+ "C18": ("model_checking", "5/C18", "src(k) -> StreamToSubStream -> {i:x|join:SEP}: k in 0..4 (beyond the buffer), 3 separators, 3 modifier settings, every Mazurkiewicz trace; exactly one task, argument string = members in emission order, members resolve from the temp dir, audit Upstream = members",
+         "documentation is silent on join + relocating modifier: only order and names are judged there."),
+})
 NA = {}
 for c in ("C01","C02","C03","C09","C10","C11","C12","C13","C14","C15","C16","C17","C18","C19","C20"):
     if c not in CHECKS:
